@@ -206,3 +206,29 @@ def hist_args(rng, nargs):
 if __name__ == '__main__':
     import sys
     print(gen_history(int(sys.argv[1]) if len(sys.argv) > 1 else 0))
+
+
+# directed time-travel corpus (run by C02, C03, C15 on top of the random histories): each takes
+# two small ints; both outcomes of every defeat condition are covered by the argument grid
+DIRECTED_TT = [
+    'empty !pd(int c) { preempt { write("D"); } !truth_is_defeat(c > 1); write("e"); }\n'
+    'empty @is_you(int a, int b) { try { write("<"); !pd(a); write(">"); } stop { write("S"); } try { !pd(b); write("k"); } undo { write("U"); } write("."); }\n',
+    'int g = 0;\nempty !pr(int n, int c) { if (n > 0) { preempt { write("^"); g += 1; } !pr(n - 1, c); write(n); } else { !truth_is_defeat(c > g); } }\n'
+    'empty @is_you(int a, int b) { try { !pr(a, b); write("ok"); } stop { write("S"); write(g); } try { !pr(b, a); write("ok2"); } undo { write("U"); write(g); } }\n',
+    'empty @is_you(int a, int b) { for (int i = 0; i < 3; i += 1) { try { for (int j = 0; j < 3; j += 1) { if (j == a) { break; } if (j == b) { continue; } write(j); } !truth_is_defeat(i == b); write("t"); } stop { write("S"); } } write("."); }\n',
+    'empty @is_you(int a, int b) { int x = a; try { preempt { x = 5; write("p"); } preempt { x += 1; write("q"); } !truth_is_defeat(x < b); write(x); } undo { write("U"); } try { preempt { x = 9; } !truth_is_defeat(x < b + 4); write(x); } stop { write("S"); write(x); } }\n',
+    'int f(int v) { write("f"); return v; }\nempty @is_you(int a, int b) { int r = f(a) ?? b; write(r); bool t = (f(a) > 1) ?? (b > 1); write(t); r = (f(a) + 1) ?? (b + 1); write(r); }\n',
+    'empty !w(int c) { while (c > 0) { c -= 1; preempt { write("w"); return; } } !is_defeat(); }\n'
+    'empty @is_you(int a, int b) { try { !w(a); write("r"); !truth_is_defeat(b > 1); write("k"); } undo { write("U"); } try { !w(b); write("r2"); } stop { write("S"); } }\n',
+    'empty !inner(int c) { !truth_is_defeat(c > 2); write("i"); }\nint !val(int c) { !inner(c); return c + 1; }\n'
+    'int @pick(int c) { try { int y = !val(c); return y; } undo { write("u"); } return 0 - 1; }\nempty @is_you(int a, int b) { write(@pick(a)); write(@pick(b)); }\n',
+]
+
+
+def directed_units(ws, stack=300, unchecked=False):
+    from diffrun import Cfg
+    units = []
+    for src in DIRECTED_TT:
+        cfgs = [Cfg((str(a), str(b)), w, stack, unchecked) for a in (0, 1, 2, 3) for b in (0, 2, 3) for w in ws]
+        units.append((src, cfgs))
+    return units
